@@ -26,6 +26,7 @@ def run(ctx: Ctx):
     layouts(ctx)
     hidden_set(ctx)
     subtotal_rule(ctx)
+    subtotal_rule_dependence(ctx)
     filters(ctx)
 
 
@@ -85,6 +86,19 @@ def hidden_set(ctx: Ctx):
         "frozenset((self._empty_idxs if self._dimension.prune else ()) + self._dimension.hidden_idxs)",
         "hidden = explicit hides + (empties only if pruning is enabled on the dimension)",
     )
+    e = expand(ctx.repo, ci, "_hidden_idxs", stop=lambda m: True)
+    guarded = any(isinstance(n, ast.IfExp) and u(n.test) == "self._dimension.prune" and "_empty_idxs" in u(n.body) and "_empty_idxs" not in u(n.orelse) for n in ast.walk(e))
+    uses_empties = "_empty_idxs" in u(e)
+    uses_hides = "self._dimension.hidden_idxs" in u(e)
+    where = "collator.py::_BaseCollator._hidden_idxs [dependence]"
+    if uses_empties and not guarded and "prune" not in u(e):
+        ctx.violated("hidden-set.dependence", where, "empties are hidden regardless of the prune flag", "empties are hidden only if pruning is enabled on the dimension")
+    elif not uses_hides:
+        ctx.violated("hidden-set.dependence", where, "explicit hides do not enter the hidden set", "hidden = explicit hides + (empties if prune)")
+    elif guarded:
+        ctx.held("hidden-set.dependence", where, "empties enter only under `self._dimension.prune`; explicit hides always", "hidden = explicit hides + (empties if prune)")
+    else:
+        ctx.undecided("hidden-set.dependence", where, u(e)[:120], "empties guarded by the prune flag")
     dim = ctx.repo.cls("dimension.py", "Dimension")
     e = expand(ctx.repo, dim, "prune", stop=lambda m: True)
     ctx.check_expr("hidden-set", "dimension.py::Dimension.prune", e, "self._dimension_transforms_dict.get('prune') is True")
@@ -145,6 +159,32 @@ def subtotal_rule(ctx: Ctx):
         ],
         "subtotals (negative idx) are dropped exactly when the subtotal-pruning rule fires; base elements are never dropped here",
     )
+
+
+def subtotal_rule_dependence(ctx: Ctx):
+    """FLOW footprint of the subtotal-pruning decision: opposing prune flag, number of opposing elements and
+    the opposing emptiness mask (unweighted counts) - explicit hides and the order play no part."""
+    from ..flow import BOT
+    from .common import slice_obj
+
+    sl = slice_obj(ctx)
+    dims = ctx.flow.member_val(sl, "_dimensions")
+    som = ctx.flow.member_val(sl, "_measures")
+    for cname in ("_RowOrderHelper", "_ColumnOrderHelper"):
+        ci = ctx.repo.cls(MA, cname)
+        obj = ctx.flow.construct(ci, [dims, som, BOT], {})
+        reads = ctx.flow.member_val(obj, "_prune_subtotals").reads
+        forbidden = sorted(r for r in reads if r in ("Dimension.hidden_idxs", "Element.is_hidden", "Dimension.order_spec") or r.startswith("_OrderSpec."))
+        required = {"Dimension.prune", "Dimension.element_ids"}
+        missing = sorted(required - set(reads))
+        where = f"{MA}::{cname}._prune_subtotals [dependence]"
+        if forbidden:
+            ctx.violated("subtotal-pruning.dependence", where, f"depends on {forbidden}", "depends only on the opposing prune flag, the opposing element count and the opposing emptiness mask", "subtotals disappear only when pruning is enabled on the opposing dimension and every opposing base vector is EMPTY - a hidden but non-empty vector does not count as empty")
+        elif missing:
+            ctx.violated("subtotal-pruning.dependence", where, f"does not depend on {missing}", "depends on the opposing prune flag and the opposing element count")
+        else:
+            labels = sorted(data_labels(reads))
+            ctx.ob("subtotal-pruning.dependence", where, f"reads prune flag, element ids, emptiness from {labels}", "... from ['U']", labels == ["U"], "emptiness of the opposing vectors is decided from unweighted counts")
 
 
 def filters(ctx: Ctx):
